@@ -1,4 +1,4 @@
-/* allocation-protocol ops (C14, C15).  Built with -Wl,--wrap=malloc,realloc,free,mmap,munmap.
+/* allocation-protocol ops (C14, C15).  Built with -Wl,--wrap=malloc,calloc,realloc,free,mmap,munmap.
 
    RASET <slot> <mode> [n]   caller sets the (data,size) pair: null | valid | small n | neg n | big n | garbage n   -> ok
    RA <slot> <phrase> <setting>      crypt_ra on the pair
@@ -24,6 +24,8 @@ static void ladd (void *p, size_t n, int is_map)
 static int should_fail (void) { if (!in_call) return 0; alloc_calls++; if (fault_at && alloc_calls == fault_at) { faults_fired++; return 1; } return 0; }
 
 void *__wrap_malloc (size_t n) { if (should_fail ()) { errno = ENOMEM; return NULL; } void *p = __real_malloc (n); ladd (p, n, 0); return p; }
+void *__wrap_calloc (size_t a, size_t b)
+{ if (should_fail ()) { errno = ENOMEM; return NULL; } void *p = __real_malloc (a * b ? a * b : 1); if (p) memset (p, 0, a * b); ladd (p, a * b, 0); return p; }
 void __wrap_free (void *p)
 { if (!p) return; struct lent *e = lfind (p); if (!e) { if (in_call) dfree_count++; else __real_free (p); return; } e->live = 0; __real_free (p); }
 void *__wrap_realloc (void *p, size_t n)
@@ -80,7 +82,9 @@ static void op_ra (int n, char **tok)
   if (d && le && le->n >= sizeof (struct crypt_data)) { size_t l = strnlen (d->output, sizeof d->output); if (l == sizeof d->output) printf ("unterminated"); else puthex ((unsigned char *)d->output, l);
       printf (" wz=%d", scratch_zero (d)); }
   else printf ("? wz=?");
-  printf (" oldzero=%s allocs=%d fired=%d leak=%d dfree=%d abort=%d sizeb=%d datab=%s\n", oldzero_flag < 0 ? "-" : oldzero_flag ? "1" : "0", alloc_calls, faults_fired, live_incall (), dfree_count, aborted, size_before, before ? "set" : "null");
+  int oldlive = before && before != (void *)d && lfind (before) != NULL;
+  printf (" oldzero=%s allocs=%d fired=%d leak=%d dfree=%d abort=%d sizeb=%d datab=%s oldlive=%d\n", oldzero_flag < 0 ? "-" : oldzero_flag ? "1" : "0", alloc_calls, faults_fired, live_incall (), dfree_count, aborted, size_before, before ? "set" : "null", oldlive);
+  if (oldlive) { struct lent *ol = lfind (before); ol->live = 0; __real_free (before); }   /* reported; do not let it distort later calls */
   fault_at = 0;
   free (p0); free (s0);
 }
